@@ -276,6 +276,12 @@ def find_entries(
     cte = ''
     params: list = []
     conditions = []
+    # forms may be provided by lexicon extensions, so only those of the
+    # selected lexicons are considered (for matching and for the result)
+    and_form_lex = and_f_lex = ''
+    if lexicon_rowids:
+        and_form_lex = f'AND lexicon_rowid IN ({_qs(lexicon_rowids)})'
+        and_f_lex = f'AND f.lexicon_rowid IN ({_qs(lexicon_rowids)})'
     if id:
         conditions.append('e.id = ?')
         params.append(id)
@@ -287,15 +293,17 @@ def find_entries(
             e.rowid IN
                (SELECT entry_rowid
                   FROM forms
-                 WHERE (form IN wordforms {or_norm}) {and_rank})
+                 WHERE (form IN wordforms {or_norm}) {and_rank} {and_form_lex})
         '''.strip())
-        params.extend(forms)
+        params.extend(lexicon_rowids)
     if pos:
         conditions.append('e.pos = ?')
         params.append(pos)
     if lexicon_rowids:
         conditions.append(f'e.lexicon_rowid IN ({_qs(lexicon_rowids)})')
         params.extend(lexicon_rowids)
+    # parameters in the order they appear in the query
+    params = [*forms, *lexicon_rowids, *params]
 
     condition = ''
     if conditions:
@@ -306,7 +314,7 @@ def find_entries(
         SELECT DISTINCT e.lexicon_rowid, e.rowid, e.id, e.pos,
                         f.form, f.id, f.script, f.rowid
           FROM entries AS e
-          JOIN forms AS f ON f.entry_rowid = e.rowid
+          JOIN forms AS f ON f.entry_rowid = e.rowid {and_f_lex}
          {condition}
          ORDER BY e.rowid, e.id, f.rank
     '''
@@ -340,13 +348,17 @@ def find_senses(
         cte = f'WITH wordforms(s) AS (VALUES {_vs(forms)})'
         or_norm = 'OR normalized_form IN wordforms' if normalized else ''
         and_rank = '' if search_all_forms else 'AND rank = 0'
+        and_form_lex = ''
+        if lexicon_rowids:  # ignore forms provided by unselected extensions
+            and_form_lex = f'AND lexicon_rowid IN ({_qs(lexicon_rowids)})'
         conditions.append(f'''
             s.entry_rowid IN
                (SELECT entry_rowid
                   FROM forms
-                 WHERE (form IN wordforms {or_norm}) {and_rank})
+                 WHERE (form IN wordforms {or_norm}) {and_rank} {and_form_lex})
         '''.strip())
         params.extend(forms)
+        params.extend(lexicon_rowids)
     if pos:
         conditions.append('e.pos = ?')
         params.append(pos)
@@ -393,14 +405,20 @@ def find_synsets(
         cte = f'WITH wordforms(s) AS (VALUES {_vs(forms)})'
         or_norm = 'OR normalized_form IN wordforms' if normalized else ''
         and_rank = '' if search_all_forms else 'AND rank = 0'
+        and_lex = ''
+        if lexicon_rowids:  # ignore forms and senses of unselected extensions
+            and_lex = (f'AND f.lexicon_rowid IN ({_qs(lexicon_rowids)}) '
+                       f'AND _s.lexicon_rowid IN ({_qs(lexicon_rowids)})')
         join = f'''\
           JOIN (SELECT _s.entry_rowid, _s.synset_rowid, _s.entry_rank
                   FROM forms AS f
                   JOIN senses AS _s ON _s.entry_rowid = f.entry_rowid
-                 WHERE (f.form IN wordforms {or_norm}) {and_rank}) AS s
+                 WHERE (f.form IN wordforms {or_norm}) {and_rank} {and_lex}) AS s
             ON s.synset_rowid = ss.rowid
         '''.strip()
         params.extend(forms)
+        params.extend(lexicon_rowids)
+        params.extend(lexicon_rowids)
         order = 'ORDER BY s.entry_rowid, s.entry_rank'
     if pos:
         conditions.append('ss.pos = ?')
